@@ -163,3 +163,182 @@ fn open_bogus_minifat_then_write() {
     }
     kani::cover!(fm == 2, "the valid value");
 }
+
+use std::io::{self, Read, Seek, SeekFrom, Write};
+const HSMALL: usize = 16;
+
+/// A file whose logical length exceeds what the scenario may touch: the first
+/// `N` bytes and `T` bytes from byte offset `tail_off` are backed by arrays on
+/// the harness's stack; any access to the hole between or behind them is a
+/// harness error (the scenario has no business there).
+pub struct HoleFile<const N: usize, const T: usize> {
+    pub p: *mut [u8; N],
+    pub t: *mut [u8; T],
+    pub tail_off: usize,
+    pub len: usize,
+    pub pos: usize,
+}
+
+impl<const N: usize, const T: usize> HoleFile<N, T> {
+    pub fn over(head: &mut [u8; N], tail: &mut [u8; T], tail_off: usize, len: usize) -> Self {
+        HoleFile { p: head as *mut [u8; N], t: tail as *mut [u8; T], tail_off, len, pos: 0 }
+    }
+    pub fn head(&self) -> &[u8; N] { unsafe { &*self.p } }
+    pub fn tail(&self) -> &[u8; T] { unsafe { &*self.t } }
+}
+
+impl<const N: usize, const T: usize> Read for HoleFile<N, T> {
+    fn read(&mut self, buf: &mut [u8]) -> io::Result<usize> {
+        let avail = if self.pos < self.len { self.len - self.pos } else { 0 };
+        let n = if buf.len() < avail { buf.len() } else { avail };
+        if n > 0 {
+            let pos = self.pos;
+            if pos + n <= N {
+                let d = unsafe { &*self.p };
+                if n <= HSMALL {
+                    let mut i = 0;
+                    while i < n && i < HSMALL { buf[i] = d[pos + i]; i += 1; }
+                } else {
+                    buf[..n].copy_from_slice(&d[pos..pos + n]);
+                }
+            } else if pos >= self.tail_off && pos + n <= self.tail_off + T {
+                let d = unsafe { &*self.t };
+                let q = pos - self.tail_off;
+                if n <= HSMALL {
+                    let mut i = 0;
+                    while i < n && i < HSMALL { buf[i] = d[q + i]; i += 1; }
+                } else {
+                    buf[..n].copy_from_slice(&d[q..q + n]);
+                }
+            } else {
+                assert!(false, "harness: read from the hole of a HoleFile");
+            }
+            self.pos += n;
+        }
+        Ok(n)
+    }
+}
+
+impl<const N: usize, const T: usize> Write for HoleFile<N, T> {
+    fn write(&mut self, buf: &[u8]) -> io::Result<usize> {
+        let n = buf.len();
+        if n > 0 {
+            let pos = self.pos;
+            if pos + n <= N {
+                let d = unsafe { &mut *self.p };
+                if n <= HSMALL {
+                    let mut i = 0;
+                    while i < n && i < HSMALL { d[pos + i] = buf[i]; i += 1; }
+                } else {
+                    d[pos..pos + n].copy_from_slice(buf);
+                }
+            } else if pos >= self.tail_off && pos + n <= self.tail_off + T {
+                let d = unsafe { &mut *self.t };
+                let q = pos - self.tail_off;
+                if n <= HSMALL {
+                    let mut i = 0;
+                    while i < n && i < HSMALL { d[q + i] = buf[i]; i += 1; }
+                } else {
+                    d[q..q + n].copy_from_slice(buf);
+                }
+            } else {
+                assert!(false, "harness: write into the hole of a HoleFile");
+            }
+            self.pos += n;
+            if self.pos > self.len { self.len = self.pos; }
+        }
+        Ok(n)
+    }
+    fn flush(&mut self) -> io::Result<()> { Ok(()) }
+}
+
+impl<const N: usize, const T: usize> Seek for HoleFile<N, T> {
+    fn seek(&mut self, pos: SeekFrom) -> io::Result<u64> {
+        let new = match pos {
+            SeekFrom::Start(n) => n as usize,
+            SeekFrom::End(d) => {
+                let t = self.len as i64 + d;
+                kani::assume(t >= 0);
+                t as usize
+            }
+            SeekFrom::Current(d) => {
+                let t = self.pos as i64 + d;
+                kani::assume(t >= 0);
+                t as usize
+            }
+        };
+        self.pos = new;
+        Ok(new as u64)
+    }
+}
+
+// C11 (and the allocator's representation invariant behind it): a file with
+// MORE sectors than its FAT sectors cover (here 131 sectors, one FAT sector =
+// 128 entries) is accepted by open.  The cached FAT must then not be longer
+// than what the FAT sectors can record - otherwise the uncovered sectors go on
+// the free list and the first allocation that picks one indexes the DIFAT out
+// of bounds in set_fat - and allocating afterwards must work: reuse of a free
+// sector below the coverage, or (no free sector) growth by a new FAT sector
+// that simply overwrites the unowned trailing sectors.
+pub const NT: usize = SEC * 6;
+pub const TAIL_SECTOR: usize = 126; // tail array = sectors 126..=131
+type HO = HoleFile<NO, NT>;
+
+macro_rules! open_uncovered {
+    ($name:ident, $full:expr) => {
+        #[kani::proof]
+        #[kani::stub(std::fmt::format, stub_format)]
+        #[kani::stub(std::io::copy, stub_io_copy)]
+        #[kani::stub(crate::internal::path::cfb_uppercase_char, super::uptable::table_upper)]
+        #[kani::unwind(140)]
+        fn $name() {
+            let mut img = open_image(192, 2);
+            if $full {
+                // no free sector below the coverage: cells 5..127 are one-sector chains
+                let mut i = 5;
+                while i < 128 { put32(&mut img.data, soff(1) + 4 * i, EOC); i += 1; }
+            }
+            let mut tail: [u8; NT] = kani::any();
+            let file: HO = HoleFile::over(&mut img.data, &mut tail, SEC * (1 + TAIL_SECTOR), SEC * (1 + 131));
+            let r = CompoundFile::open_internal(file, Validation::Permissive, 1024);
+            if let Ok(c) = r {
+                let mut g = c.minialloc.write().unwrap();
+                {
+                    let a = dacc::allocator(macc::directory(&g));
+                    assert!(aacc::fat(a).len() <= 128 * aacc::difat(a).len(),
+                        "C11/C02: after open the cached FAT is longer than what the file's FAT sectors can record");
+                    let fr = aacc::free_sectors(a);
+                    let mut ok = true;
+                    let mut i = 0;
+                    while i < fr.len() { ok &= (fr[i] as usize) < 128 * aacc::difat(a).len(); i += 1; }
+                    assert!(ok, "C11: a sector without a FAT entry in the file is on the free list");
+                }
+                let r = aacc::allocate_sector(dacc::allocator_mut(macc::directory_mut(&mut g)), crate::internal::SectorInit::Zero);
+                match r {
+                    Ok(id) => {
+                        let a = dacc::allocator(macc::directory(&g));
+                        assert!((id as usize) < aacc::fat(a).len() && aacc::fat(a)[id as usize] == EOC, "C03: allocated sector's FAT cell");
+                        if $full {
+                            assert!(id == 129 && aacc::difat(a).len() == 2 && aacc::difat(a)[1] == 128, "C03/C15: growth past the FAT's coverage adds FAT sector 128 and hands out sector 129");
+                            let f = a.inner();
+                            assert!(get32(&f.head()[..], 44) == 2 && get32(&f.head()[..], 80) == 128, "C02: header FAT count / DIFAT entry written through");
+                            assert!(get32(&f.tail()[..], SEC * (128 - TAIL_SECTOR)) == FATSECT && get32(&f.tail()[..], SEC * (128 - TAIL_SECTOR) + 4) == EOC, "C02: cells of the new FAT sector written through");
+                        } else {
+                            assert!((id as usize) < 128, "C11: allocation handed out a sector the FAT cannot record");
+                        }
+                        kani::cover!(true, "allocated");
+                    }
+                    Err(e) => { std::mem::forget(e); assert!(false, "C11/C01: allocation failed on an accepted file"); }
+                }
+                drop(g);
+                std::mem::forget(c);
+            } else {
+                // rejecting the file would be a legitimate answer for C11
+                std::mem::forget(r);
+            }
+            kani::cover!(true, "end");
+        }
+    };
+}
+open_uncovered!(open_uncovered_reuse, false);
+open_uncovered!(open_uncovered_grow, true);
